@@ -5,6 +5,8 @@ Line protocol for C13 (one output line per input line):
 
   init tcp|udp|serial <MIN_PACKET_SIZE> <MAX_PACKET_SIZE>        -> ok
   feed <ev> <ev> ...     ev = d<elapsed>:<hex> | t<elapsed> | e<elapsed>    -> ok
+  planopen ok|to|early|late                                      -> ok   (outcome of a coming open())
+  write <hex>
   open | close | discard
   read <n> <t> | until <hex> <t> | rut <n> <t>                   t = none | <int ticks>
 
@@ -43,6 +45,7 @@ def excName : Exc → String
   | .runtime => "QMI_RuntimeException"
   | .valueError => "ValueError"
   | .assertion => "AssertionError"
+  | .osError => "OSError"
   | .exhausted => "ScriptExhausted"
 
 def outStr : Out → String
@@ -63,14 +66,20 @@ def ioStr : Io → String
   | .iw => "iw"
   | .rd n => "rd:" ++ toString n
   | .rs => "rs"
+  | .gh => "gh"
+  | .cn => "cn"
+  | .bd => "bd"
+  | .sa n => "sa:" ++ toString n
+  | .sd n => "sd:" ++ toString n
+  | .wr n => "wr:" ++ toString n
 
 def ioTrace (l : List Io) : String :=
   if l.isEmpty then "-" else ",".intercalate (l.map ioStr)
 
 /-- run one op; the io trace and the ghost log are cleared before each op (the driver prints only the delta) -/
 def doOp (s : St) (op : Op) : St × String :=
-  let r := step { s with io := [], log := [] } op
-  (r.1, s!"{outStr r.2} io={ioTrace r.1.io} clk={r.1.clock} left={r.1.dev.length} buf={Drv.hex r.1.buf}")
+  let r := step { s with io := [], log := [], wlog := [] } op
+  (r.1, s!"{outStr r.2} io={ioTrace r.1.io} clk={r.1.clock} left={r.1.dev.length} buf={Drv.hex r.1.buf} open={r.1.isOpen}")
 
 def stepLine (s : St) (line : String) : St × String :=
   match line.splitOn " " with
@@ -86,6 +95,17 @@ def stepLine (s : St) (line : String) : St × String :=
   | "feed" :: evs =>
     match parseEvs evs with
     | some sc => ((step s (.feed sc)).1, "ok")
+    | none => (s, "bad-op")
+  | ["planopen", r] =>
+    match r with
+    | "ok" => ((step s (.planOpen .ok)).1, "ok")
+    | "to" => ((step s (.planOpen .timeout)).1, "ok")
+    | "early" => ((step s (.planOpen .early)).1, "ok")
+    | "late" => ((step s (.planOpen .late)).1, "ok")
+    | _ => (s, "bad-op")
+  | ["write", h] =>
+    match Drv.unhex h with
+    | some d => doOp s (.write d)
     | none => (s, "bad-op")
   | ["open"] => doOp s .open
   | ["close"] => doOp s .close
